@@ -38,7 +38,8 @@ SPEC("pane.errors", "SumErrorNode.print_error.<locals>._flatten_sum", trusted=Tr
           "reported by converters (IConv), never bare DuplicateKeyError nodes")
 
 SPEC("pane.errors", "SumErrorNode.print_error", shapes=dict(ERR_SHAPES, **{"self.children": "seq"}),
-     no_raise=["C08"], total=True)
+     no_raise=["C08"], total=True,
+     invariants={0: lambda it: True})          # the printing loop carries no state the proof needs (declared, so that it is not "a loop without invariant")
 
 
 def wf_trees():
@@ -54,7 +55,9 @@ SPEC("pane.errors", "ProductErrorNode.print_error", shapes=ERR_SHAPES,
           "chain-fusing while loop is NOT proved (the variant obligation over the dict comprehension is outside the solver's array fragment): trees are finite",
      no_raise=["C08"], total=True,
      invariants={0: lambda it, self: isinstance(self, ProductErrorNode)
-                 and forall_val(lambda k: implies(mhas(as_map(self.children), k), isinstance(mget(as_map(self.children), k), ErrorNode)))})
+                 and forall_val(lambda k: implies(mhas(as_map(self.children), k), isinstance(mget(as_map(self.children), k), ErrorNode))),
+                 # the three printing loops carry no state the proof needs
+                 1: lambda it: True, 2: lambda it: True, 3: lambda it: True})
 
 
 # ---------------------------------------------------------------------------------------------
